@@ -63,13 +63,15 @@ def guard(seconds):
     def _h(_sig, _frm):
         raise _Hang
 
-    old = signal.signal(signal.SIGALRM, _h)
-    signal.setitimer(signal.ITIMER_REAL, seconds)
+    # CPU time of this process (ITIMER_VIRTUAL), not wall-clock time: a busy machine must not turn a slow but
+    # returning call into a "hang"; a real hang (the emulator looping over a huge parameter) burns CPU and is caught
+    old = signal.signal(signal.SIGVTALRM, _h)
+    signal.setitimer(signal.ITIMER_VIRTUAL, seconds)
     try:
         yield
     finally:
-        signal.setitimer(signal.ITIMER_REAL, 0)
-        signal.signal(signal.SIGALRM, old)
+        signal.setitimer(signal.ITIMER_VIRTUAL, 0)
+        signal.signal(signal.SIGVTALRM, old)
 
 
 @contextlib.contextmanager
@@ -471,9 +473,9 @@ def check_robust_csi(tier, seed, sh):
 
 
 def check_robust_huge(tier, seed, sh):
-    timeout = 0.25 if tier == "quick" else 1.0
+    timeout = 1.0  # seconds of CPU time (see guard)
     sizes = SIZES[1:2] if tier == "quick" else SIZES[1:]
-    chk = SigCheck("C15/robust-huge-params", f"CSI with a 10^9 parameter for every final byte 0x40..0x7e: must not raise, must keep GI and must return within {timeout}s (the statement quantifies over huge parameters and the emulator has to 'survive' them: a hosted program must not be able to freeze the UI)", True, f"finals 0x40..0x7e x params {{1e9, 1;1e9, 1e9;1e9}} x sizes {sizes}, timeout {timeout}s")
+    chk = SigCheck("C15/robust-huge-params", f"CSI with a 10^9 parameter for every final byte 0x40..0x7e: must not raise, must keep GI and must return within {timeout}s of CPU time (the statement quantifies over huge parameters and the emulator has to 'survive' them: a hosted program must not be able to freeze the UI)", True, f"finals 0x40..0x7e x params {{1e9, 1;1e9, 1e9;1e9}} x sizes {sizes}, timeout {timeout}s")
     big = b"1000000000"
     for size in sizes:
         for final in CSI_FINALS:
